@@ -220,6 +220,7 @@ def finish(prop, mod, tier, seed, outs, extra, t0):
                 k = match_known(known, r['name'], r.get('witness'))
                 if k is not None:
                     known_hits.append((k, r))
+                    obligations -= 1      # listed separately: refuted, recorded as a known finding
                 else:
                     violations.append((o, r))
             elif r['status'] == 'fault':
@@ -328,7 +329,8 @@ def finish(prop, mod, tier, seed, outs, extra, t0):
         backends=dict(backends), solver_seconds=round(solver_s, 2),
         native_crosscheck_points=cross_points,
         undecided=[u['name'] for u in undecided][:40], undecided_count=len(undecided),
-        known_findings=[k['what'] for k, _ in known_hits][:20],
+        known_findings=sorted({k['what'] for k, _ in known_hits})[:20],
+        known_finding_obligations=[r['name'] for _, r in known_hits][:40],
         bounded_standins=list(getattr(mod, 'BOUNDED', [])),
         not_decided=list(getattr(mod, 'NOT_DECIDED', [])),
         samples=samples or [dict(note='no proved obligation')],
